@@ -5,6 +5,7 @@ package main
 // evidence, report violations.
 
 import (
+	"sync"
 	"encoding/json"
 	"flag"
 	"fmt"
@@ -314,6 +315,9 @@ func runCheck(prop, tier string, seed int) int {
 		os.WriteFile(p, []byte(sb.String()), 0o644)
 		return p
 	}
+	modelJobs := 0
+	var modelWG sync.WaitGroup
+	defer modelWG.Wait()
 	for _, u := range units {
 		seenUnits[u.Key] = true
 		funcs = append(funcs, u.Key)
@@ -370,9 +374,14 @@ func runCheck(prop, tier string, seed int) int {
 			}
 			rp := writeReplay(u, o, reason)
 			v := violation{obl: o.Name, replay: rp, what: o.Text}
-			if rr := tryReplay(w, u, o, prop, replayDir); rr != "" {
-				v.replay = rr
-				v.hasInput = true
+			// the solver's model is appended to the replay text for the first few refuted obligations (in the background)
+			if modelJobs < 3 {
+				modelJobs++
+				modelWG.Add(1)
+				go func(u *UnitResult, o *Obligation) {
+					defer modelWG.Done()
+					tryReplay(w, u, o, prop, replayDir)
+				}(u, o)
 			}
 			addViol(v)
 		}
